@@ -202,3 +202,17 @@ Theorem C11_reformatted_same_tree : forall rules prules start nm0 q pr s1 s2,
   erase_o (parse_text rules prules start s1) = erase_o (parse_text rules prules start s2).
 Proof. exact reformatted_same_tree. Qed.
 Print Assumptions C11_reformatted_same_tree.
+
+(* non-vacuity of the closure: two changes in a row (a blank removed after "=", then a line break added after the brace) *)
+Definition lexemes_of (s : string) : list lexeme := match lex_all lexer_rules s with Some l => l | None => [] end.
+Example C11_two_white_space_changes :
+  clos_refl_sym_trans _ ws_reformat "a =  enum { x; }" ("a = enum { " ++ String nl " x; }")%string.
+Proof.
+  apply rst_trans with "a = enum { x; }".
+  - apply rst_step.
+    refine (ws_reformat_intro " " " " "" "enum { x; }" (firstn 3 (lexemes_of "a =  enum { x; }")) "a =" (skipn 3 (lexemes_of "a =  enum { x; }")) _ _ _ _ _ _ _ _);
+      try rewrite firstn_skipn; try (vm_compute; reflexivity); [vm_compute; auto | vm_compute; repeat constructor].
+  - apply rst_step.
+    refine (ws_reformat_intro " " "" (String nl " ") "x; }" (firstn 7 (lexemes_of "a = enum { x; }")) "a = enum {" (skipn 7 (lexemes_of "a = enum { x; }")) _ _ _ _ _ _ _ _);
+      try rewrite firstn_skipn; try (vm_compute; reflexivity); [vm_compute; auto | vm_compute; repeat constructor].
+Qed.
